@@ -54,6 +54,9 @@ func init() {
 		thorough := tier == "thorough"
 		distinct := map[string]bool{}
 		bad := func(what, impl, model string) {
+			if len(rep.Divergences) >= 6 {
+				return // enough disagreements recorded; the oracles on the real code keep running
+			}
 			rep.Divergences = append(rep.Divergences, &Divergence{Scenario: "ketama", What: what, Impl: canonN(300, []byte(impl)), Model: canonN(300, []byte(model))})
 		}
 		viol := func(what, sig string, replay interface{}) {
@@ -134,6 +137,13 @@ func init() {
 			for pi, perm := range perms {
 				c := cluster.New(mkBuckets(perm))
 				implRing, pts, _ := ringString(c)
+				for i := 1; i < len(pts); i++ {
+					if pts[i-1] > pts[i] {
+						viol(fmt.Sprintf("the ring of %v is not sorted: point %d (%d) > point %d (%d), so the binary search of Bucket lands on arbitrary owners", perm, i-1, pts[i-1], i, pts[i]),
+							"ring-unsorted", map[string]interface{}{"nodes": perm, "index": i})
+						break
+					}
+				}
 				hl := make([]string, len(perm))
 				for i, l := range perm {
 					hl[i] = hx([]byte(l))
@@ -142,9 +152,6 @@ func init() {
 				want := fmt.Sprintf("%d %s", len(pts)/(4*len(perm)), implRing)
 				if got != want {
 					bad(fmt.Sprintf("ring of node set %d, permutation %d", si, pi), want, got)
-					if len(rep.Divergences) > 3 {
-						return
-					}
 				}
 				rep.Evaluations++
 				rep.Validated++
